@@ -1345,4 +1345,31 @@ theorem group_dynamics {lv : List (Name × Nat)} {maps : List (Name × List Nat)
       rw [netStoich_eq_lookup _ _ hr.2]
       simp [coefOf, lookup_map_plain]
 
+
+theorem valF_var (m : LModel) (st : List (LName × Rat)) (f : Nat) (n : LName) (v : Rat)
+    (h : st.lookup n = some v) : m.valF st (f + 1) n = v := by
+  simp [LModel.valF, h]
+
+/-- the driver's environment reads `X__total` as the sum of the isotopomers of `X` (the
+    hypothesis of `C05_model_dynamics_partial`), whenever the isotopomers are state variables and
+    the total's name is neither a state variable nor a parameter -/
+theorem env_totals (m : LModel) (st : List (LName × Rat)) (k : Name) (n : Nat)
+    (hst : ∀ iso ∈ binaryLabels k n, (st.lookup iso).isSome)
+    (hnot : st.lookup (plain (k ++ "__total")) = none)
+    (hp : m.pars.lookup (k ++ "__total") = none)
+    (ht : m.totals.lookup (plain (k ++ "__total")) = some (binaryLabels k n)) :
+    m.env st (plain (k ++ "__total")) = totalOf (m.env st) k n := by
+  unfold LModel.env totalOf
+  rw [show m.derived.length + 3 = (m.derived.length + 2) + 1 from rfl]
+  conv => lhs; unfold LModel.valF
+  have hnot' : st.lookup ({ base := k ++ "__total", lab := none } : LName) = none := hnot
+  have ht' : m.totals.lookup ({ base := k ++ "__total", lab := none } : LName) = some (binaryLabels k n) := ht
+  simp only [plain, hp, hnot', ht']
+  apply congrArg
+  apply List.map_congr_left
+  intro iso hiso
+  obtain ⟨v, hv⟩ := Option.isSome_iff_exists.mp (hst iso hiso)
+  rw [valF_var m st _ iso v hv]
+  rw [show m.derived.length + 2 = (m.derived.length + 1) + 1 from rfl, valF_var m st _ iso v hv]
+
 end Mxl.C05
